@@ -206,7 +206,8 @@ def multi_case(rng):
     a diagonal + dense-column block (constraints) in one component, dense rows (objective, more constraints)
     in others; bidirectional colouring needs fewer solves than min(n_dv, n_resp)"""
     n = rng.randrange(4, 9)
-    dense_cols = rng.sample(range(n), rng.choice([1, 1, 2]))
+    canonical = rng.random() < 0.6        # one dense column, one dense-row objective, default mode
+    dense_cols = rng.sample(range(n), 1 if canonical else rng.choice([1, 1, 2]))
     v = lambda: rng.randrange(1, 10)
     diag_rows = [i for i in range(n) if i not in dense_cols] if rng.random() < 0.5 else list(range(n - 1))
     D = []
@@ -219,9 +220,9 @@ def multi_case(rng):
             row[rng.randrange(n)] = v()
         D.append(row)
     blocks = [D]
-    for _ in range(rng.choice([1, 1, 2])):            # components with dense rows
-        blocks.append([[v() for _ in range(n)] for _ in range(rng.choice([1, 1, 2]))])
-    if rng.random() < 0.3:                            # a second sparse component
+    for _ in range(1 if canonical else rng.choice([1, 1, 2])):            # components with dense rows
+        blocks.append([[v() for _ in range(n)] for _ in range(1 if canonical else rng.choice([1, 1, 2]))])
+    if not canonical and rng.random() < 0.3:                            # a second sparse component
         blocks.append([[v() if (j == i or j in dense_cols) else 0 for j in range(n)]
                        for i in rng.sample(range(n), 2)])
     order = list(range(len(blocks)))
@@ -232,7 +233,7 @@ def multi_case(rng):
     sc = lambda m: [rng.choice([1, 2, 4, 0.5]) for _ in range(m)]
     return {'kind': 'totals_multi', 'blocks': blocks, 'obj': rng.choice(dense_idx) if dense_idx else 0,
             'x': [rng.randrange(-3, 4) for _ in range(n)], 'direct': rng.random() < 0.5,
-            'mode': rng.choice([None, None, None, 'fwd', 'rev']),
+            'mode': None if canonical else rng.choice([None, None, 'fwd', 'rev']),
             'dv_scaler': rng.choice([None, None, sc(n)]),
             'con_scaler': rng.choice([None, None, sc(len(blocks[0]))]), 'ds': rng.random() < 0.3}
 
